@@ -9,7 +9,7 @@ from gens import segments as gs
 from gens import tasks as gt
 from vlib.runner import SubProp, Violation
 
-from mir_eval import alignment, beat, melody, multipitch, onset, segment, tempo, transcription, transcription_velocity
+from mir_eval import pattern, alignment, beat, melody, multipitch, onset, segment, tempo, transcription, transcription_velocity
 
 PROPERTY_ID = "C07"
 SCALE = (3, 3)   # budget multiplier (quick, thorough) applied to the n=(...) of every generated sub-property
@@ -249,6 +249,38 @@ def pred_alignment(case, ctx):
                  ctx.call(alignment.percentage_correct, r, e, window=case["t2"]), case)
 
 
+@st.composite
+def pattern_tol_case(draw):
+    """reference and estimated prototypes that are near-variants of ONE motif (same length, onsets moved by a few 1/16 s), so that which
+    prototype matches which depends on tol"""
+    L = draw(st.integers(2, 4))
+    motif = [[float(i), 60.0 + draw(st.integers(0, 7))] for i in range(L)]
+
+    def variant():
+        return [[[a + draw(st.sampled_from([0, 0, 1, 2, 3, 4, 5, 6])) / 16, b] for a, b in motif]]      # one occurrence = the prototype
+    ref = [variant() for _ in range(draw(st.integers(1, 3)))]
+    est = [variant() for _ in range(draw(st.integers(1, 3)))]
+    t1, t2 = draw(two([1e-5, 0.0625, 0.125, 0.1875, 0.25, 0.3125, 0.375, 0.5, 1.0]))
+    if draw(st.integers(0, 2)) == 0:
+        # a "crossing": reference A equals estimate 2 and is d1 away from estimate 1; reference B is d2 < d1 away from estimate 1 only.
+        # Under t1 = d1 both references are matched; a wider tol must not lose one of them (it would if matches were handed out greedily).
+        g_, d1, d2 = draw(st.sampled_from([0.875, 1.5, 2.0])), draw(st.sampled_from([0.25, 0.1875, 0.375])), draw(st.sampled_from([0.125, 0.0625]))
+        two_note = lambda gap: [[[0.0, 60.0], [gap, 64.0]]]
+        ra, rb, e1, e2 = two_note(g_), two_note(g_ + d1 + d2), two_note(g_ + d1), two_note(g_)
+        ref = [ra, rb] if draw(st.booleans()) else [rb, ra]
+        est = [e1, e2] if draw(st.integers(0, 2)) else [e2, e1]
+        t1, t2 = d1, d1 + draw(st.sampled_from([0.0625, 0.25, 1.0]))
+    return {"ref": ref, "est": est, "t1": t1, "t2": t2}
+
+
+def pred_pattern_tol(case, ctx):
+    a, b = R.tuples(case["ref"]), R.tuples(case["est"])
+    s1 = ctx.call(pattern.standard_FPR, a, b, tol=case["t1"])
+    s2 = ctx.call(pattern.standard_FPR, a, b, tol=case["t2"])
+    # order (F, P, R)
+    return _mono("pattern.standard_FPR(tol)", (s1[1], s1[2], s1[0]), (s2[1], s2[2], s2[0]), case) and len(a) + len(b) >= 3
+
+
 SUBPROPS = [
     SubProp("beat_onset", pred_events, strategy=events_case, n=(1200, 30000), shards=(2, 8), floor=0.08, rule="window axis + nested beat criteria; NT = scores differ between the two windows"),
     SubProp("boundary_window", pred_boundary, strategy=boundary_case, n=(800, 20000), shards=(2, 8), floor=0.04, rule="segment.detection window; NT = scores differ"),
@@ -258,4 +290,7 @@ SUBPROPS = [
     SubProp("multipitch", pred_multipitch, strategy=multipitch_case, n=(800, 20000), shards=(2, 8), floor=0.15, rule="window axis, raw <= chroma; NT = scores differ"),
     SubProp("tempo", pred_tempo, strategy=tempo_case, n=(600, 10000), shards=(1, 4), floor=0.05, rule="tol axis, both => one; NT = scores differ"),
     SubProp("alignment", pred_alignment, strategy=alignment_case, n=(600, 10000), shards=(1, 4), floor=0.05, rule="window axis; NT = scores differ"),
+    SubProp("pattern_tolerance", pred_pattern_tol, strategy=pattern_tol_case, n=(600, 12000), shards=(2, 8), floor=0.1,
+            rule="pattern.standard_FPR under tol t1 <= t2 on near-variant prototypes (tol is not in the statement's list of tolerances; it is one in the same sense and "
+                 "the relation holds by construction); NT = >= 3 prototypes and a score that changes"),
 ]
